@@ -373,9 +373,8 @@ func (a *Accounts) SetLockStakeUntilBlock(address types.Address, h uint64) {
 
 func (a *Accounts) GetLockStakeUntilBlock(address types.Address) uint64 {
 	account := a.getOrNew(address)
-	account.lock.RLock()
-	defer account.lock.RUnlock()
-
+	// getLockStakeUntilBlock takes the account's read lock itself; taking it here as well is a
+	// recursive read lock, which dead-locks as soon as a writer queues up in between
 	return account.getLockStakeUntilBlock()
 }
 
